@@ -248,6 +248,12 @@ func (h *handler1) handleClientPublish(ctx context.Context, snPublish *snPkts1.P
 		}
 	case snPkts1.TIT_SHORT:
 		topic = snPkts.DecodeShortTopic(snPublish.TopicID)
+	default:
+		return fmt.Errorf("invalid topic id type %d", snPublish.TopicIDType)
+	}
+	// MQTT does not allow to publish to an empty topic nor to a topic with wildcards.
+	if topic == "" || hasWildcard(topic) {
+		return fmt.Errorf("cannot publish to topic %#v", topic)
 	}
 	if snPublish.QOS == 1 {
 		h.transactions.Store(msgID, newClientPublishQOS1Transaction(ctx, h, msgID, snPublish.TopicID))
